@@ -303,7 +303,7 @@ func c10Fixed() []string {
 		for _, op := range []string{"and", "or"} {
 			var b1, b2 strings.Builder
 			b1.WriteString("var t = 1 var f = 0\nprint t")
-			b2.WriteString("var t = 1 var f = 0\nprint f")
+			b2.WriteString("print f")
 			for k := 1; k < n; k++ {
 				b1.WriteString(" " + op + " t")
 				b2.WriteString(" " + op + " f")
